@@ -115,6 +115,16 @@ CREW_RULE = ("histories of 2-8 messages for a sio crew of 0-5 relay/recorder mac
              "reported changes, emitted multiset and live view compared with the model; shadow store folded from the reports compared "
              "with the live crew; a second crew rebuilt from the store at every boundary and fed the rest.  Non-trivial: history of more than one message.")
 
+MCREW_OVERLAY = {"pkg": "cmd/mcrew", "test": "TestVerifMCrewDriver", "race": True,
+                 "files": {"cmd/mcrew/zz_verif_driver_test.go": "go/overlay/mcrew_driver_test.go"}}
+
+MCREW_RULE = ("operation sequences of 3-12 add / remove / process operations over three machine ids and 1-2 counting specs, with the "
+              "bolt store closed and reopened at random positions (every write in between fails); after every operation the in-memory "
+              "crew, the stored records (read back from the bolt file) and the operation's result are compared with the model; then "
+              "6 concurrent clients issue process/add/remove/read-crew requests and every counter must account for every message "
+              "(no lost update) with memory equal to the store.  The service is driven in-process by a test file added with "
+              "`go test -overlay`.  Non-trivial: more than two operations.")
+
 PROPS = {
     "C01": {
         "modules": ["Sheens.Props.C01", "Sheens.Props.MatchTotal"],
@@ -193,7 +203,7 @@ PROPS = {
         "rule": ENGINE_RULE + "  Probes: deep snapshots of state, messages, spec (patterns, targets, settings), control and props before/after; pointer identity of every returned bindings map against the given one; two identical calls compared.",
     },
     "C07": {
-        "modules": ["Sheens.Props.C07"],
+        "modules": ["Sheens.Props.C07", "Sheens.Props.MatchTotal"],
         "theorems": [],
         "facts": ["walk_defaults_nil_control", "exec_writeback_guarded"],
         "runs": {
@@ -258,5 +268,18 @@ PROPS = {
         "oracles": ["storeEqLive"],
         "probes": ["storeEqLive", "rebuildEquiv"],
         "rule": CREW_RULE,
+    },
+    "C16": {
+        "modules": ["Sheens.Props.C16"],
+        "theorems": [],
+        "facts": [],
+        "runs": {
+            "quick": [("mcrewgen", ["-profile", "mcrew", "-n", "150"], {"overlay": MCREW_OVERLAY})],
+            "thorough": [("mcrewgen", ["-profile", "mcrew", "-n", "1500"], {"overlay": MCREW_OVERLAY})],
+        },
+        "analyze": analyze_generic,
+        "oracles": ["memEqStore", "failedIsNoop"],
+        "probes": ["noLostUpdate"],
+        "rule": MCREW_RULE,
     },
 }
